@@ -5,9 +5,25 @@
 #include <string.h>
 #include <inttypes.h>
 #include <libkdumpfile/addrxlat.h>
+#include "addrxlat-priv.h"	/* sys_set_layout(), struct os_init_data, struct sys_region */
 #include "alloc.h"
 
 static addrxlat_map_t *maps[4];
+
+/* layout tables: a translation system whose slots KV_PHYS (target) and KPHYS_DIRECT (reverse direct map, filled
+ * by the direct action) start out as NULL */
+static addrxlat_sys_t *lsys;
+static addrxlat_ctx_t *lctx;
+
+static void showslot(addrxlat_map_t *m)
+{
+	size_t i, n = m ? addrxlat_map_len(m) : 0;
+	const addrxlat_range_t *r = m ? addrxlat_map_ranges(m) : NULL;
+	if (!m) { printf(" null"); return; }
+	printf(" %zu", n);
+	for (i = 0; i < n; ++i)
+		printf(" %" PRIu64 ":%ld", (uint64_t)r[i].endoff, (long)r[i].meth);
+}
 
 static void show(const char *pfx, addrxlat_map_t *m)
 {
@@ -21,13 +37,71 @@ static void show(const char *pfx, addrxlat_map_t *m)
 
 int main(void)
 {
-	char line[512];
+	static char line[4096];
 	setvbuf(stdout, NULL, _IOLBF, 0);
 	for (int i = 0; i < 4; ++i) maps[i] = addrxlat_map_new();
 	while (fgets(line, sizeof line, stdin)) {
 		unsigned id, dst, a1, a2;
 		uint64_t addr, endoff; long meth;
-		if (sscanf(line, "new %u", &id) == 1 && id < 4) {
+		if (!strncmp(line, "lnew", 4)) {
+			if (lsys) addrxlat_sys_decref(lsys);
+			lsys = addrxlat_sys_new();
+			if (!lctx) lctx = addrxlat_ctx_new();
+			puts("> ok");
+		} else if (!strncmp(line, "osinit ", 7)) {
+			/* osinit <arch> <k> : addrxlat_sys_os_init(arch, os_type=linux) on a fresh translation system with the
+			 * k-th allocation failing; all maps of the system are shown (implementation only, no model) */
+			char arch[32]; unsigned long k, cnt; unsigned i;
+			addrxlat_opt_t opts[2]; addrxlat_sys_t *sys; addrxlat_status st;
+			if (sscanf(line + 7, "%31s %lu", arch, &k) != 2) { puts("> bad-op"); continue; }
+			if (!lctx) lctx = addrxlat_ctx_new();
+			sys = addrxlat_sys_new();
+			addrxlat_opt_arch(&opts[0], arch);
+			addrxlat_opt_os_type(&opts[1], "linux");
+			addrxlat_ctx_clear_err(lctx);
+			alloc_reset();
+			alloc_fail_at = k;
+			st = addrxlat_sys_os_init(sys, lctx, 2, opts);
+			cnt = alloc_count;
+			alloc_reset();
+			printf("> osinit %d allocs %lu", (int)st, cnt);
+			for (i = 0; i < ADDRXLAT_SYS_MAP_NUM; ++i) {
+				printf(" |");
+				showslot(addrxlat_sys_get_map(sys, i));
+			}
+			putchar('\n');
+			addrxlat_sys_decref(sys);
+		} else if (!strncmp(line, "layout ", 7)) {
+			/* layout <k> <n> {<first> <last> <meth> <direct 0|1>}*n : sys_set_layout() of the table into slot
+			 * KV_PHYS with the k-th allocation failing (k = 0: none) */
+			static struct sys_region tab[34];
+			struct os_init_data ctl;
+			unsigned long k; unsigned n, i; int pos, adv;
+			addrxlat_status st;
+			if (!lsys) { lsys = addrxlat_sys_new(); lctx = addrxlat_ctx_new(); }
+			if (sscanf(line + 7, "%lu %u%n", &k, &n, &pos) != 2 || n > 32) { puts("> bad-op"); continue; }
+			for (i = 0; i < n; ++i) {
+				uint64_t f, l; long m; unsigned d;
+				if (sscanf(line + 7 + pos, " %" SCNu64 " %" SCNu64 " %ld %u%n", &f, &l, &m, &d, &adv) != 4) break;
+				pos += adv;
+				tab[i].first = f; tab[i].last = l; tab[i].meth = m;
+				tab[i].act = d ? SYS_ACT_DIRECT : SYS_ACT_NONE;
+			}
+			if (i != n) { puts("> bad-op"); continue; }
+			tab[n].first = tab[n].last = 0; tab[n].meth = ADDRXLAT_SYS_METH_NUM; tab[n].act = SYS_ACT_NONE;
+			memset(&ctl, 0, sizeof ctl);
+			ctl.sys = lsys; ctl.ctx = lctx;
+			addrxlat_ctx_clear_err(lctx);
+			alloc_reset();
+			alloc_fail_at = k;
+			st = sys_set_layout(&ctl, ADDRXLAT_SYS_MAP_KV_PHYS, tab);
+			alloc_reset();
+			printf("> %s M", st == ADDRXLAT_OK ? "ok" : st == ADDRXLAT_ERR_NOMEM ? "nomem" : "other");
+			showslot(addrxlat_sys_get_map(lsys, ADDRXLAT_SYS_MAP_KV_PHYS));
+			printf(" R");
+			showslot(addrxlat_sys_get_map(lsys, ADDRXLAT_SYS_MAP_KPHYS_DIRECT));
+			putchar('\n');
+		} else if (sscanf(line, "new %u", &id) == 1 && id < 4) {
 			addrxlat_map_decref(maps[id]);
 			maps[id] = addrxlat_map_new();
 			show("ok", maps[id]);
